@@ -19,7 +19,7 @@ import toast_terms as TT
 
 TRUSTED = [
     "harness/toast_terms.py: recording wrapper around the compiled toasty._libtoasty.mid (terms/hashes attached to the "
-    "returned (lon, lat) tuples); hash collisions (61-bit modulus) are neglected",
+    "returned (lon, lat) tuples); hash collisions (arithmetic modulo 2^63) are neglected",
     "the compiled _libtoasty*.so is taken as the semantics of _libtoasty.pyx (no Cython here to rebuild it)",
     "numeric validation only (not proof): toast_tile_area sums, libm-based _mid vs normalised vector sum (50-digit decimal), "
     "float lattice/partition predicates with stated tolerances",
@@ -36,7 +36,7 @@ COQ_DEFS = TT.COQ_DIGEST_DEFS + r"""
 Inductive c4case :=
 | KTile (planet : bool) (obs : htile)
 | KCst (planet : bool) (p : pos) (obs : option htile)
-| KGen (planet : bool) (depth : nat) (bottom filtered : bool) (table : list pos) (count digest : N)
+| KGen (planet : bool) (depth : nat) (bottom filtered : bool) (table : list pos) (count : N) (digest : int)
 | KTerm (planet : bool) (obs : tile).
 Definition chk4 (c : c4case) : nat :=
   match c with
@@ -51,7 +51,7 @@ Definition chk4 (c : c4case) : nat :=
       let l := if filtered then generate_tiles_filtered hbase hmid depth (tbl table) bottom (cs_of pl)
                else generate_tiles hbase hmid depth bottom (cs_of pl) in
       if negb (N.eqb (N.of_nat (length l)) count) then 3%nat
-      else if negb (N.eqb (tiles_digest l) digest) then 4%nat else 0%nat
+      else if negb (ieq (tiles_digest l) digest) then 4%nat else 0%nat
   | KTerm pl obs => if tile_eqb (tile_at Base Mid (cs_of pl) (tpos obs)) obs then 0%nat else 5%nat
   end.
 """
@@ -286,7 +286,7 @@ def run(ctx, V):
             for bottom in (False, True):
                 tiles = list(T.generate_tiles(D, bottom_only=bottom, coordsys=cs))
                 rows = [TT.tile_row(t) for t in tiles]
-                terms.append("(KGen %s %d %s false [] %d %d)" % (g_bool(planet), D, g_bool(bottom), len(rows), TT.tiles_digest(rows)))
+                terms.append("(KGen %s %d %s false [] %d %s)" % (g_bool(planet), D, g_bool(bottom), len(rows), TT.g_i(TT.tiles_digest(rows))))
                 meta.append(dict(route="generate_tiles", planet=planet, depth=D, bottom=bottom))
                 want = {(n, x, y) for n in range(1, D + 1) for x in range(2 ** n) for y in range(2 ** n) if (n == D or not bottom)}
                 if {r[:3] for r in rows} != want or len(rows) != len(want):
@@ -317,8 +317,8 @@ def run(ctx, V):
                 bottom = rng.random() < 0.5
                 tiles = list(T.generate_tiles_filtered(depth, lambda t: (t.pos.n, t.pos.x, t.pos.y) in tset, bottom_only=bottom, coordsys=cs))
                 rows = [TT.tile_row(t) for t in tiles]
-                terms.append("(KGen %s %d %s true %s %d %d)" % (g_bool(planet), depth, g_bool(bottom),
-                                                               "[" + "; ".join(g_pos(p) for p in table) + "]", len(rows), TT.tiles_digest(rows)))
+                terms.append("(KGen %s %d %s true %s %d %s)" % (g_bool(planet), depth, g_bool(bottom),
+                                                               "[" + "; ".join(g_pos(p) for p in table) + "]", len(rows), TT.g_i(TT.tiles_digest(rows))))
                 meta.append(dict(route="generate_tiles_filtered", planet=planet, depth=depth, bottom=bottom, table=[list(p) for p in table]))
                 if sorted(r[:3] for r in rows) != sorted(accepted_set(depth, table, bottom)):
                     prop_fail[planet].append(f"generate_tiles_filtered(depth={depth}) does not yield exactly the tiles accepted with all ancestors")
